@@ -4,8 +4,8 @@ From Coq Require Import List ZArith NArith Bool Sorting.Permutation.
 From Pcfg Require Import Str Multiword Detect Segment SegCorr DetectProofsStr DetectProofsDrive DetectProofsSimple
      DetectProofsMw DetectProofsSeg DetectProofsWeb DetectProofsKbd DetectProofsCount DetectProofsAdj DetectProofsPipe DetectProofsInst.
 From Pcfg Require Import DetectRt DetectGenProofs DetectGenInst.
-From Pcfg Require Import DetectRt2 DetectGenProofsMw DetectGenInst2.
-From PcfgGen Require Import Consts_gen Unicode_gen Detect_gen DetectMw_gen.
+From Pcfg Require Import DetectRt2 DetectGenProofsMw DetectGenProofsEmail DetectGenProofsWeb DetectGenInst2.
+From PcfgGen Require Import Consts_gen Unicode_gen Detect_gen DetectMw_gen DetectEmail_gen DetectWeb_gen.
 Import ListNotations.
 Open Scope Z_scope.
 
@@ -368,6 +368,51 @@ Example C05_source_mw_demo :
     py_mwparse_c t [112; 97; 115; 115; 119; 111; 114; 107]%N = Some (false, [[112; 97; 115; 115; 119; 111; 114; 107]]%N).
 Proof. exact demo_py_mw. Qed.
 
+(* The e-mail and website detectors.  dres_email / dres_web read what the translated
+   detect_* returns the way email_detection / website_detection do (`if email:` /
+   `if url:`, then the parsing is spliced in); the equalities hold for every oracle and
+   every TLD list (website: without an empty string - with one the Python loop does not
+   terminate), with the length-preserving lower-casing (aligned = true). *)
+Theorem C05_source_detect_email_is_model : forall lower_c tlds sec,
+  dres_email (py_detect_email lower_c tlds sec) = detect_email lower_c true tlds (fst sec).
+Proof. exact py_detect_email_eq. Qed.
+Theorem C05_source_email_detection_is_model : forall lower_c tlds sl,
+  py_email_detection lower_c tlds sl =
+  match drive_all (detect_email lower_c true tlds) false sl with
+  | None => None
+  | Some (out, fs) => Some (out, map fst fs, map (fun f => Some (snd f)) fs)
+  end.
+Proof. exact py_email_detection_eq. Qed.
+Theorem C05_source_detect_website_is_model : forall isalpha lower_c tlds sec, Forall (fun t => 1 <= len t) tlds ->
+  dres_web (py_detect_website isalpha lower_c tlds sec) = detect_website isalpha lower_c true tlds (fst sec).
+Proof. exact py_detect_website_eq. Qed.
+Theorem C05_source_website_detection_is_model : forall isalpha lower_c tlds sl, Forall (fun t => 1 <= len t) tlds ->
+  py_website_detection isalpha lower_c tlds sl =
+  match drive_all (detect_website isalpha lower_c true tlds) false sl with
+  | None => None
+  | Some (out, fs) => Some (out, map (fun f => fst (fst f)) fs, map (fun f => Some (snd (fst f))) fs, map snd fs)
+  end.
+Proof. exact py_website_detection_eq. Qed.
+(* email_split_ok / website_split_ok for the translated detectors *)
+Theorem email_split_ok_source :
+  det_split_ok c_isalpha c_isdigit c_lower c_kbs c_min_run year_prefixes context_strings py_detect_email_c.
+Proof. exact py_email_split_ok. Qed.
+Theorem website_split_ok_source :
+  det_split_ok c_isalpha c_isdigit c_lower c_kbs c_min_run year_prefixes context_strings py_detect_website_c.
+Proof. exact py_website_split_ok. Qed.
+Example C05_source_email_web_demo :
+  py_detect_email c_lower tld_list ([98; 111; 98; 64; 104; 111; 116; 109; 97; 105; 108; 46; 99; 111; 109; 49; 50; 51]%N, None) =
+    Some (PList [([98; 111; 98; 64; 104; 111; 116; 109; 97; 105; 108; 46; 99; 111; 109]%N, Some LE); ([49; 50; 51]%N, None)],
+          Some [98; 111; 98; 64; 104; 111; 116; 109; 97; 105; 108; 46; 99; 111; 109]%N,
+          Some [104; 111; 116; 109; 97; 105; 108; 46; 99; 111; 109]%N) /\
+  py_website_detection c_isalpha c_lower tld_list
+    [([120; 120; 119; 119; 119; 46; 114; 111; 99; 107; 121; 111; 117; 46; 99; 111; 109; 47; 97; 98; 99]%N, None)] =
+    Some ([([120; 120]%N, None);
+           ([119; 119; 119; 46; 114; 111; 99; 107; 121; 111; 117; 46; 99; 111; 109; 47; 97; 98; 99]%N, Some LW)],
+          [[119; 119; 119; 46; 114; 111; 99; 107; 121; 111; 117; 46; 99; 111; 109; 47; 97; 98; 99]%N],
+          [Some [114; 111; 99; 107; 121; 111; 117; 46; 99; 111; 109]%N], [Some [119; 119; 119; 46]%N]).
+Proof. exact demo_py_email_web. Qed.
+
 Print Assumptions split_driver_tiling.
 Print Assumptions C05_tiling.
 Print Assumptions C05_counters.
@@ -381,3 +426,6 @@ Print Assumptions C05_counters_source.
 Print Assumptions C05_source_year_detection_total.
 Print Assumptions C05_source_mw_train_is_model.
 Print Assumptions C05_sound_multiword_source.
+Print Assumptions C05_source_detect_website_is_model.
+Print Assumptions website_split_ok_source.
+Print Assumptions email_split_ok_source.
